@@ -10,6 +10,7 @@ import (
 	"mime/multipart"
 	"net/http"
 	"net/http/httptest"
+	"net/textproto"
 	"net/url"
 	"strings"
 
@@ -38,6 +39,8 @@ type c06Case struct {
 	Sch         any      `json:"sch"`
 	// BodyRequired: requestBody.required of a decode case (absent = true)
 	BodyRequired *bool `json:"bodyRequired"`
+	// PartCT: Content-Type of every part of a multipart body ("" / "none" = no header, "text" = text/plain)
+	PartCT string `json:"partCT"`
 }
 
 func renderMT(m any) string {
@@ -144,14 +147,26 @@ func c06Run(c *Case) []any {
 			ks, vs := fields()
 			for i, k := range ks {
 				for _, x := range vs[i] {
-					w.WriteField(k, x)
+					if tc.PartCT == "text" {
+						h := textproto.MIMEHeader{}
+						h.Set("Content-Disposition", fmt.Sprintf(`form-data; name="%s"`, k))
+						h.Set("Content-Type", "text/plain")
+						pw, _ := w.CreatePart(h)
+						pw.Write([]byte(x))
+					} else {
+						w.WriteField(k, x)
+					}
 				}
 			}
 			w.Close()
 			ct = w.FormDataContentType()
 			body = buf.Bytes()
 		case "text":
-			content["text/plain"] = map[string]any{"schema": map[string]any{"type": "string", "minLength": 2}}
+			var ts any = map[string]any{"type": "string", "minLength": 2}
+			if tc.Sch != nil {
+				ts = absSchemaToOpenAPI(tc.Sch) // the abstract text schema TLC judged the body against
+			}
+			content["text/plain"] = map[string]any{"schema": ts}
 			ct = "text/plain"
 			body = []byte(csToString(v["cs"]))
 		}
